@@ -20,46 +20,89 @@ from typing import Any
 
 from . import core, tlaval
 from .core import Check, run_tlc, tla
-from .w_sharedcore import packages
+from .w_sharedcore import abstract_paths, packages
 
 LEVEL = "model_checking"
 
 NAME2CODE = {"NotFoundError": 404, "ConflictError": 409, "InternalServerError": 500}
-PRIMARY_LAYOUT = {0: "sib", 1: "api", 2: "sib", 3: "sib", 4: "sib"}
-OTHER = {"sib": "api", "api": "sib"}
+ALL_CLIENTS = ["c1", "c2", "c3"]
+
+
+def lid(depth: int, lay: str) -> str:
+    return f"d{depth}.{lay}"
 
 
 def families(tier: str) -> list[dict[str, Any]]:
-    """The history families replayed with real generations.
-    A: primary layout per depth, code sets with inclusion and disjointness; B: the other layout, with the empty set."""
+    """The history families replayed with real generations; "layouts" = (core depth, layout, max history length).
+    A: long histories, code sets with inclusion and disjointness, unrelated names;
+    B: the other layouts (incl. unrelated branch, core depth 4), with the empty code set, unrelated names;
+    C1/C2: PREFIX-RELATED names (one package name a string prefix of another without being its parent) - the
+    specification treats names as atoms, so the same trees must behave the same under these spellings."""
+    S1, S2, S3 = [[404], [404, 409], [500]], [[], [404], [409, 500]], [[404], [500]]
     if tier == "quick":
         return [
-            {"name": "A", "clients": ["c1", "c2"], "codesets": [[404], [404, 409], [500]], "depths": [0, 1, 2, 3], "maxlen": 3,
-             "canon": False, "layout": PRIMARY_LAYOUT, "maxlen_at": {0: 2}, "split": 1},
-            {"name": "B", "clients": ["c1", "c2"], "codesets": [[], [404], [409, 500]], "depths": [0, 1, 2, 3, 4], "maxlen": 2,
-             "canon": False, "layout": {d: OTHER[PRIMARY_LAYOUT[d]] for d in range(5)}, "maxlen_at": {}, "split": 1},
+            {"name": "A", "naming": "plain", "clients": ["c1", "c2"], "codesets": S1, "canon": False, "split": 1,
+             "layouts": [(1, "api", 3), (3, "sib", 3), (2, "sib", 2), (0, "sib", 2)]},
+            {"name": "B", "naming": "plain", "clients": ["c1", "c2"], "codesets": S2, "canon": False, "split": 1,
+             "layouts": [(0, "api", 2), (1, "sib", 2), (2, "api", 2), (2, "far", 2), (3, "api", 2), (4, "api", 2)]},
+            {"name": "C1", "naming": "n1", "clients": ["c1", "c2"], "codesets": S3, "canon": False, "split": 1,
+             "layouts": [(0, "sib", 2), (1, "sib", 2), (1, "api", 2), (2, "sib", 2), (2, "far", 2), (3, "sib", 2)]},
+            {"name": "C2", "naming": "n2", "clients": ["c1", "c2"], "codesets": S3, "canon": False, "split": 1,
+             "layouts": [(1, "sib", 2), (1, "api", 2), (2, "sib", 2), (3, "api", 2)]},
         ]
     return [
-        {"name": "A", "clients": ["c1", "c2", "c3"], "codesets": [[404], [404, 409], [500]], "depths": [0, 1, 2, 3], "maxlen": 4,
-         "canon": True, "layout": PRIMARY_LAYOUT, "maxlen_at": {0: 3, 2: 3}, "split": 2},
-        {"name": "B", "clients": ["c1", "c2"], "codesets": [[], [404], [409, 500]], "depths": [0, 1, 2, 3, 4], "maxlen": 3,
-         "canon": False, "layout": {d: OTHER[PRIMARY_LAYOUT[d]] for d in range(5)}, "maxlen_at": {}, "split": 1},
+        {"name": "A", "naming": "plain", "clients": ALL_CLIENTS, "codesets": S1, "canon": True, "split": 2,
+         "layouts": [(1, "api", 4), (3, "sib", 4), (2, "sib", 3), (0, "sib", 3)]},
+        {"name": "B", "naming": "plain", "clients": ["c1", "c2"], "codesets": S2, "canon": False, "split": 1,
+         "layouts": [(0, "api", 2), (1, "sib", 3), (2, "api", 2), (2, "far", 3), (3, "api", 2), (4, "api", 3)]},
+        {"name": "C1", "naming": "n1", "clients": ALL_CLIENTS, "codesets": S3, "canon": False, "split": 1,
+         "layouts": [(0, "sib", 2), (1, "sib", 3), (1, "api", 2), (2, "sib", 3), (2, "far", 2), (3, "sib", 2)]},
+        {"name": "C2", "naming": "n2", "clients": ALL_CLIENTS, "codesets": S3, "canon": False, "split": 1,
+         "layouts": [(1, "sib", 3), (1, "api", 2), (2, "sib", 2), (3, "api", 2)]},
     ]
+
+
+def layout_tla(depth: int, lay: str, clients: list[str]) -> str:
+    """The layout as SharedCore.tla sees it: package PATHS over abstract name atoms."""
+    return tla({"id": lid(depth, lay), "depth": depth, "core": abstract_paths("c1", depth, lay)[1], "pkg": {c: abstract_paths(c, depth, lay)[0] for c in clients}})
+
+
+def names_relation(clients: list[str], depth: int, lay: str, naming: str) -> str:
+    """Observed spelling of the packages in play (plain string facts about the dotted names, nothing of the generator):
+    core-name-is-client-suffix: a client package ends with "." + the full core package name (`api_v2.api` with core `api`);
+    prefix-related: one package name is a string prefix of another without being its parent (`shop` / `shop_core`);
+    unrelated: neither."""
+    names = set()
+    suffix = False
+    for c in clients:
+        pkg, core = packages(c, depth, lay, naming)
+        names.add(pkg)
+        names.add(core or pkg + ".core")
+        if core and pkg.endswith("." + core):
+            suffix = True
+    if suffix:
+        return "core-name-is-client-suffix"
+    for x in names:
+        for y in names:
+            if x != y and y.startswith(x) and not y.startswith(x + "."):
+                return "prefix-related"
+    return "unrelated"
 
 
 # ---------------------------------------------------------------------------------------------
 # (A) design model checking
 
 
-DESIGN_DEPTHS = (0, 1, 2, 3, 4)
+DESIGN_LAYOUTS = [(0, "sib"), (1, "sib"), (1, "api"), (2, "far"), (3, "sib"), (4, "api")]
 
 
 def mc_module() -> str:
-    """Served / NeverShrinksNeeded as one named formula per core depth, so that TLC can tell where they fail."""
+    """Served / NeverShrinksNeeded as one named formula per layout, so that TLC can tell where they fail."""
     lines = ["---- MODULE MC_SharedCore ----", "EXTENDS SharedCore", "MCCodeSets == SUBSET {404, 409, 500}"]
-    for d in DESIGN_DEPTHS:
-        lines.append(f"Served_{d} == depth = {d} => Served")
-        lines.append(f"NeverShrinksNeeded_{d} == [][depth = {d} => NeverShrinksNeededStep]_vars")
+    lines.append("MCLayouts == {" + ",\n  ".join(layout_tla(d, lay, ALL_CLIENTS) for d, lay in DESIGN_LAYOUTS) + "}")
+    for i, (d, lay) in enumerate(DESIGN_LAYOUTS):
+        lines.append(f'Served_{i} == layout.id = "{lid(d, lay)}" => Served')
+        lines.append(f'NeverShrinksNeeded_{i} == [][layout.id = "{lid(d, lay)}" => NeverShrinksNeededStep]_vars')
     lines.append("====")
     return "\n".join(lines) + "\n"
 
@@ -68,11 +111,12 @@ def mc_cfg(formulas: list[str]) -> str:
     lines = [
         "SPECIFICATION Spec",
         "CONSTANTS",
-        ' Clients = {"c1", "c2", "c3"}',
+        f" Clients = {tla(set(ALL_CLIENTS))}",
         " CodeSets <- MCCodeSets",
-        f" Depths = {tla(set(DESIGN_DEPTHS))}",
+        " Layouts <- MCLayouts",
         " MaxLen = 4",
         "INVARIANT TypeOK",
+        "INVARIANT LayoutOK",
         "INVARIANT RegistryKeepsClients",
         "INVARIANT AliasesAreUnion",
     ]
@@ -86,11 +130,12 @@ _CEX = re.compile(r"^State \d+: <(Generate\(.*?\)) line", re.M)
 
 def design(chk: Check) -> None:
     """Model-check SharedCore.tla.  The mechanism invariants must hold (else machinery failure: the model is wrong);
-    the C11 formulas are evaluated per core depth: every one TLC refutes is recorded as a design-level failure (its
+    the C11 formulas are evaluated per layout: every one TLC refutes is recorded as a design-level failure (its
     counterexample is the specification-level statement of the defect), removed, and TLC is run again until the
     remaining formulas hold on the complete state space."""
     files = {"MC_SharedCore.tla": mc_module()}
-    todo = [f"Served_{d}" for d in DESIGN_DEPTHS] + [f"NeverShrinksNeeded_{d}" for d in DESIGN_DEPTHS]
+    idx = range(len(DESIGN_LAYOUTS))
+    todo = [f"Served_{i}" for i in idx] + [f"NeverShrinksNeeded_{i}" for i in idx]
     while True:
         r = run_tlc(chk.scratch, "MC_SharedCore", mc_cfg(todo), files=files, workers=1, coverage=True, allow_violation=True)
         chk.add_tlc(f"MC_SharedCore[{len(todo)} C11 formulas + mechanism invariants]", r)
@@ -98,18 +143,19 @@ def design(chk: Check) -> None:
             break
         bad = r.violated[0]
         chk.require(bad in todo, f"the design model breaks its own mechanism invariant {bad!r}:\n{r.out[-1500:]}")
-        name, _, d = bad.rpartition("_")
+        name, _, i = bad.rpartition("_")
+        d, lay = DESIGN_LAYOUTS[int(i)]
         cex = _CEX.findall(r.out)
         chk.fail(
             f"C11.design.{name}",
-            {"core_depth": int(d), "level": "design"},
-            {"level": "design", "module": "SharedCore", "property": name, "depth": int(d), "counterexample": cex},
+            {"core_depth": d, "layout": lay, "level": "design"},
+            {"level": "design", "module": "SharedCore", "property": name, "depth": d, "layout": lay, "counterexample": cex},
             "TLC counterexample of the implementation-shaped model: " + " ; ".join(cex),
         )
-        chk.sample({"kind": "design counterexample", "property": name, "depth": int(d), "behaviour": cex}, cap=8)
+        chk.sample({"kind": "design counterexample", "property": name, "depth": d, "layout": lay, "behaviour": cex}, cap=8)
         todo.remove(bad)
     chk.clause("C11.design", len(todo))
-    chk.cov["design_formulas_holding"] = todo
+    chk.cov["design_formulas_holding"] = [f"{t.rpartition('_')[0]}[{lid(*DESIGN_LAYOUTS[int(t.rpartition('_')[2])])}]" for t in todo]
     chk.require(r.coverage.get("Generate", (0, 0))[1] > 0, "vacuous design run: Generate never taken")
     chk.require(r.distinct > 1000, f"design state space unexpectedly small ({r.distinct})")
 
@@ -124,6 +170,7 @@ def gen_tree(chk: Check, fam: dict[str, Any]) -> list[dict[str, Any]]:
 EXTENDS Gen_SharedCore
 MCOrder == {tla(fam['clients'])}
 MCCodeSets == {{{", ".join(tla(set(cs)) if cs else "{}" for cs in fam['codesets'])}}}
+MCLayouts == {{{", ".join(layout_tla(d, lay, fam['clients']) for d, lay, _ in fam['layouts'])}}}
 ====
 """
     cfg = f"""INIT GInit
@@ -133,24 +180,28 @@ CONSTANTS
  Order <- MCOrder
  Canon = {tla(bool(fam['canon']))}
  CodeSets <- MCCodeSets
- Depths = {tla(set(fam['depths']))}
- MaxLen = {fam['maxlen']}
+ Layouts <- MCLayouts
+ MaxLen = {max(m for _, _, m in fam['layouts'])}
 CHECK_DEADLOCK FALSE
 """
     r = run_tlc(chk.scratch, "MC_GenSharedCore", cfg, files={"MC_GenSharedCore.tla": mod}, workers=8, coverage=True, extra=["-dump", "dot,actionlabels", "graph.dot"])
-    chk.add_tlc(f"Gen_SharedCore[{fam['name']}:{len(fam['clients'])} clients,<={fam['maxlen']}]", r)
+    chk.add_tlc(f"Gen_SharedCore[{fam['name']}:{len(fam['clients'])} clients,{len(fam['layouts'])} layouts,<={max(m for _, _, m in fam['layouts'])}]", r)
     nodes, _edges, _init = tlaval.parse_dot((r.workdir / "graph.dot").read_text())
     chk.require(len(nodes) == r.distinct, f"dump has {len(nodes)} nodes, TLC found {r.distinct} states")
     out = []
+    maxlen = {lid(d, lay): m for d, lay, m in fam["layouts"]}
+    layof = {lid(d, lay): (d, lay) for d, lay, _ in fam["layouts"]}
     for st in nodes.values():
         hist = [[h["c"], sorted(h["codes"]), bool(h["force"])] for h in st["hist"]]
-        d = st["depth"]
-        if len(hist) > fam["maxlen_at"].get(d, fam["maxlen"]):
+        L = st["layout"]["id"]
+        if len(hist) > maxlen[L]:
             continue
         reg = st["registry"]
         out.append(
             {
-                "depth": d,
+                "lid": L,
+                "depth": layof[L][0],
+                "lay": layof[L][1],
                 "hist": hist,
                 "state": {
                     "generated": sorted(st["generated"]),
@@ -161,13 +212,13 @@ CHECK_DEADLOCK FALSE
                 },
             }
         )
-    out.sort(key=lambda n: (n["depth"], len(n["hist"]), json.dumps(n["hist"])))
+    out.sort(key=lambda n: (n["lid"], len(n["hist"]), json.dumps(n["hist"])))
     chk.require(sum(1 for n in out if n["hist"]) > 0, "history tree is empty")
     return out
 
 
-def hkey(fam: str, depth: int, hist: list) -> str:
-    return f"{fam}|{depth}|{json.dumps(hist)}"
+def hkey(fam: str, layout_id: str, hist: list) -> str:
+    return f"{fam}|{layout_id}|{json.dumps(hist)}"
 
 
 def make_jobs(chk: Check, fam: dict[str, Any], nodes: list[dict[str, Any]], spawn_every: int) -> list[dict[str, Any]]:
@@ -177,17 +228,19 @@ def make_jobs(chk: Check, fam: dict[str, Any], nodes: list[dict[str, Any]], spaw
         h = n["hist"]
         if not h:
             continue
-        key = (n["depth"], json.dumps(h[:L]))
+        key = (n["depth"], n["lay"], json.dumps(h[:L]))
         groups.setdefault(key, []).append(h)
     jobs = []
-    for (d, pre), hs in sorted(groups.items(), key=lambda kv: (-len(kv[1]), kv[0])):
-        jid = f"{fam['name']}.d{d}.{len(jobs)}"
+    for (d, lay, pre), hs in sorted(groups.items(), key=lambda kv: (-len(kv[1]), kv[0])):
+        jid = f"{fam['name']}.{lid(d, lay)}.{len(jobs)}"
         jobs.append(
             {
                 "id": jid,
                 "root": str(chk.scratch.path / "c11" / jid),
                 "depth": d,
-                "layout": fam["layout"][d],
+                "layout": lay,
+                "lid": lid(d, lay),
+                "naming": fam["naming"],
                 "hists": hs,
                 "spawn_every": spawn_every,
                 "fam": fam["name"],
@@ -214,9 +267,9 @@ def codes_of(names: list[str], unknown: set[str]) -> list[int]:
     return sorted(out)
 
 
-def project(ob: dict, depth: int, layout: str, clients: list[str], unknown: set[str]) -> dict[str, Any]:
+def project(ob: dict, depth: int, layout: str, naming: str, clients: list[str], unknown: set[str]) -> dict[str, Any]:
     """Observed post-state of a step in the vocabulary of SharedCore.tla."""
-    pkg2id = {packages(c, depth, layout)[0]: c for c in clients}
+    pkg2id = {packages(c, depth, layout, naming)[0]: c for c in clients}
     probes = {p["client"]: p for p in ob["probes"] if p["exists"]}
     return {
         "generated": sorted(probes),
@@ -233,8 +286,8 @@ def pre_of(parent: dict | None) -> dict[str, Any]:
     return parent["post"]
 
 
-def post_of(ob: dict, pre: dict, depth: int, layout: str, clients: list[str]) -> dict[str, Any]:
-    pkg2id = {packages(c, depth, layout)[0]: c for c in clients}
+def post_of(ob: dict, pre: dict, depth: int, layout: str, naming: str, clients: list[str]) -> dict[str, Any]:
+    pkg2id = {packages(c, depth, layout, naming)[0]: c for c in clients}
     cid, codes, _force = ob["h"][-1]
     declared = dict(pre["declared"])
     if ob["applied"]:
@@ -250,7 +303,7 @@ def post_of(ob: dict, pre: dict, depth: int, layout: str, clients: list[str]) ->
     }
 
 
-def trace_of(tid: str, ob: dict, pre: dict, post: dict, depth: int) -> dict[str, Any]:
+def trace_of(tid: str, ob: dict, pre: dict, post: dict, depth: int, layout: str, names: str) -> dict[str, Any]:
     cid, codes, force = ob["h"][-1]
     ev: list[dict[str, Any]] = [
         {
@@ -268,7 +321,7 @@ def trace_of(tid: str, ob: dict, pre: dict, post: dict, depth: int) -> dict[str,
     for p in ob["probes"]:
         if p["exists"]:
             ev.append({"k": "probe", "client": p["client"], "imports": bool(p["imports"]), "missing": p["missing"], "needs": p["needs"], "visible": p["visible"], "exc": p["exc"]})
-    return {"id": tid, "depth": depth, "pre": pre, "ev": ev}
+    return {"id": tid, "depth": depth, "layout": layout, "names": names, "pre": pre, "ev": ev}
 
 
 def monitor(chk: Check, traces: list[dict], label: str) -> dict[str, dict]:
@@ -292,7 +345,6 @@ def replay_and_judge(chk: Check, fams: list[tuple[dict, list[dict]]], spawn_ever
     # big sub-trees first, dealt round-robin over the worker processes
     jobs.sort(key=lambda j: -len(j["hists"]))
     res = core.parallel_py(chk.scratch, "harness.w_sharedcore", jobs, timeout=3000)
-    famby = {fam["name"]: fam for fam, _ in fams}
     obs: dict[str, dict] = {}
     executed = 0
     spawned = 0
@@ -300,7 +352,7 @@ def replay_and_judge(chk: Check, fams: list[tuple[dict, list[dict]]], spawn_ever
         spawned += r["spawned"]
         for ob in r["obs"]:
             executed += 1
-            k = hkey(job["fam"], job["depth"], ob["h"])
+            k = hkey(job["fam"], job["lid"], ob["h"])
             if k not in obs:
                 ob["_fam"], ob["_depth"], ob["_layout"] = job["fam"], job["depth"], job["layout"]
                 obs[k] = ob
@@ -314,33 +366,37 @@ def replay_and_judge(chk: Check, fams: list[tuple[dict, list[dict]]], spawn_ever
     first_drift = None
     nhist = 0
     for fam, nodes in fams:
-        children = {json.dumps(n["hist"][:-1]) + f"|{n['depth']}" for n in nodes if n["hist"]}
-        for n in nodes:  # sorted by (depth, len(hist)): parents come first
+        naming = fam["naming"]
+        relation = {lid(d, lay): names_relation(fam["clients"], d, lay, naming) for d, lay, _ in fam["layouts"]}
+        children = {json.dumps(n["hist"][:-1]) + f"|{n['lid']}" for n in nodes if n["hist"]}
+        for n in nodes:  # sorted by (layout, len(hist)): parents come first
             if not n["hist"]:
                 continue
-            k = hkey(fam["name"], n["depth"], n["hist"])
+            k = hkey(fam["name"], n["lid"], n["hist"])
             ob = obs.get(k)
             chk.require(ob is not None, f"history {k} was not replayed")
-            if json.dumps(n["hist"]) + f"|{n['depth']}" not in children:
+            if json.dumps(n["hist"]) + f"|{n['lid']}" not in children:
                 nhist += 1
-            parent = obs.get(hkey(fam["name"], n["depth"], n["hist"][:-1])) if len(n["hist"]) > 1 else None
+            parent = obs.get(hkey(fam["name"], n["lid"], n["hist"][:-1])) if len(n["hist"]) > 1 else None
             pre = pre_of(parent)
-            post = post_of(ob, pre, n["depth"], ob["_layout"], fam["clients"])
+            post = post_of(ob, pre, n["depth"], n["lay"], naming, fam["clients"])
             ob["post"] = post
             chk.require(not ob.get("generator_imported"), "the generator was importable inside the probe interpreter")
-            real = project(ob, n["depth"], ob["_layout"], fam["clients"], unknown)
+            real = project(ob, n["depth"], n["lay"], naming, fam["clients"], unknown)
             if real != n["state"]:
                 ndrift += 1
                 if first_drift is None:
-                    first_drift = f"family {fam['name']} depth {n['depth']} layout {ob['_layout']} after {json.dumps(n['hist'])}: real {json.dumps(real, sort_keys=True)} vs SharedCore.tla {json.dumps(n['state'], sort_keys=True)} (generate: {ob['gen']['errtype']})"
+                    first_drift = f"family {fam['name']} (names {naming}: {relation[n['lid']]}) depth {n['depth']} layout {n['lay']} packages {[packages(c, n['depth'], n['lay'], naming) for c in fam['clients'][:2]]} after {json.dumps(n['hist'])}: real {json.dumps(real, sort_keys=True)} vs SharedCore.tla {json.dumps(n['state'], sort_keys=True)} (generate: {ob['gen']['errtype']})"
             if ob["existed"] and not n["hist"][-1][2]:
                 key = "nonforce_over_existing_returned" if ob["gen"]["ok"] else "nonforce_over_existing_raised"
                 chk.cov[key] = chk.cov.get(key, 0) + 1
             elif not ob["gen"]["ok"]:
                 chk.cov["direct_generation_raised"] = chk.cov.get("direct_generation_raised", 0) + 1
             tid = k
-            traces.append(trace_of(tid, ob, pre, post, n["depth"]))
-            meta[tid] = {"fam": fam["name"], "depth": n["depth"], "layout": ob["_layout"], "hist": n["hist"], "ob": ob, "spec_state": n["state"]}
+            traces.append(trace_of(tid, ob, pre, post, n["depth"], n["lay"], relation[n["lid"]]))
+            meta[tid] = {"fam": fam["name"], "depth": n["depth"], "layout": n["lay"], "naming": naming, "hist": n["hist"], "ob": ob, "spec_state": n["state"]}
+            chk.cov.setdefault("steps_by_names", {}).setdefault(relation[n["lid"]], 0)
+            chk.cov["steps_by_names"][relation[n["lid"]]] += 1
     chk.cov["histories_maximal"] = chk.cov.get("histories_maximal", 0) + nhist
     chk.cov["steps_replayed"] = chk.cov.get("steps_replayed", 0) + len(traces)
     chk.cov["steps_conforming_to_spec_state"] = chk.cov.get("steps_conforming_to_spec_state", 0) + len(traces) - ndrift
@@ -364,13 +420,14 @@ def replay_and_judge(chk: Check, fams: list[tuple[dict, list[dict]]], spawn_ever
         for f in v["fails"]:
             ob = m["ob"]
             pr = next((p for p in ob["probes"] if p["client"] == f["client"]), {})
-            pk, ck = packages(f["client"], m["depth"], m["layout"])
+            pk, ck = packages(f["client"], m["depth"], m["layout"], m["naming"])
             scen = {
                 "family": m["fam"],
                 "depth": m["depth"],
                 "layout": m["layout"],
+                "naming": m["naming"],
                 "hist": m["hist"],
-                "packages": {c: packages(c, m["depth"], m["layout"])[0] for c in sorted({s[0] for s in m["hist"]})},
+                "packages": {c: packages(c, m["depth"], m["layout"], m["naming"])[0] for c in sorted({s[0] for s in m["hist"]})},
                 "core_package": ck,
                 "broken_client": pk,
             }
@@ -380,22 +437,24 @@ def replay_and_judge(chk: Check, fams: list[tuple[dict, list[dict]]], spawn_ever
     chk.cov["steps_with_another_client_present"] = chk.cov.get("steps_with_another_client_present", 0) + nother
     chk.require(nother > 0, "no step was taken with another client present (family does not exercise sharing)")
     chk.require(nreg > 0 or label == "replay", "the registry was never observed (family does not exercise the mechanism)")
+    chk.require(label == "replay" or sum(v for k, v in chk.cov.get("steps_by_names", {}).items() if k != "unrelated") > 0, "no step with prefix-related package names was replayed")
     # samples
     some = []
-    for d in (1, 3):
-        some += [m for m in meta.values() if m["depth"] == d and len(m["hist"]) >= 2 and len({s[0] for s in m["hist"]}) >= 2 and m["ob"]["applied"]][:1]
+    for d, nm in ((1, "plain"), (3, "plain"), (1, "n1")):
+        some += [m for m in meta.values() if m["depth"] == d and m["naming"] == nm and len(m["hist"]) >= 2 and len({s[0] for s in m["hist"]}) >= 2 and m["ob"]["applied"]][:1]
     for m in some:
-        chk.sample({"kind": "replayed step", "depth": m["depth"], "layout": m["layout"], "hist": m["hist"], "spec_state": m["spec_state"], "observed": {k: m["ob"][k] for k in ("regfile", "registry", "aliases")},
+        chk.sample({"kind": "replayed step", "depth": m["depth"], "layout": m["layout"], "naming": m["naming"], "hist": m["hist"], "spec_state": m["spec_state"], "observed": {k: m["ob"][k] for k in ("regfile", "registry", "aliases")},
                     "probes": [{k: p[k] for k in ("client", "pkg", "imports", "missing", "needs")} for p in m["ob"]["probes"]]}, cap=10)
 
 
 def run(chk: Check) -> None:
     chk.cov["rule"] = (
-        "TLC model-checks SharedCore.tla (3 clients x every subset of {404,409,500} x force x core depth 0..4, histories <=4) and "
-        "enumerates the history tree (quick: every history <=3 over 2 clients x 3 code sets x force for core depth 0..3 + the other "
-        "package layout <=2 incl. the empty code set; thorough: <=4 over 3 clients up to client renaming + other layout <=3); every "
-        "edge = one real generate_client call + a fresh-interpreter import of every client generated so far; non-trivial = applied step "
-        "with another client already present, distinct by (family, depth, layout, history)"
+        "TLC model-checks SharedCore.tla (3 clients x every subset of {404,409,500} x force x 6 layouts [embedded, sibling, below-sibling, "
+        "unrelated branch; core depth 0..4], histories <=4) and enumerates the history tree per family (A: histories <=3 [thorough <=4, 3 "
+        "clients up to renaming] x 3 code sets x force; B: other layouts incl. the empty code set; C1/C2: the same layouts spelled with "
+        "prefix-related package names such as shop / shop2 / shop_core or api / api_v2); every edge = one real generate_client call + a "
+        "fresh-interpreter import of every client generated so far; non-trivial = applied step with another client already present, "
+        "distinct by (family, layout, naming, history)"
     )
     chk.assumptions += [
         "the fresh interpreter is a fork of a /venv/bin/python zygote that has loaded only third-party libraries with the generator blocked; "
@@ -420,15 +479,13 @@ def replay(chk: Check, path: str) -> None:
     else:
         hist = sc["hist"]
         clients = sorted({s[0] for s in hist} | {"c1", "c2"})
-        fam = {"name": "R", "clients": clients, "layout": {sc["depth"]: sc["layout"]}, "split": 1}
-        nodes = []
         # the specification's states along this one history come from the history tree of a one-path family
-        gfam = {"name": "R", "clients": clients, "codesets": sorted({tuple(s[1]) for s in hist}), "depths": [sc["depth"]], "maxlen": len(hist), "canon": False, "maxlen_at": {}}
-        gfam["codesets"] = [list(c) for c in gfam["codesets"]]
-        allnodes = gen_tree(chk, gfam)
+        fam = {"name": "R", "naming": sc.get("naming", "plain"), "clients": clients, "codesets": [list(c) for c in sorted({tuple(s[1]) for s in hist})],
+               "canon": False, "split": 1, "layouts": [(sc["depth"], sc["layout"], len(hist))]}
+        allnodes = gen_tree(chk, fam)
         want = {json.dumps(hist[:i]) for i in range(1, len(hist) + 1)}
         nodes = [n for n in allnodes if json.dumps(n["hist"]) in want]
         replay_and_judge(chk, [(fam, nodes)], 1, "replay")
-        print(f"REPLAY depth={sc['depth']} layout={sc['layout']} hist={json.dumps(hist)}")
+        print(f"REPLAY depth={sc['depth']} layout={sc['layout']} naming={sc.get('naming', 'plain')} hist={json.dumps(hist)}")
     for f in chk.fails:
         print("REPLAY-FAIL", f["clause"], json.dumps(f["locus"], sort_keys=True), f["detail"][:300])
